@@ -80,6 +80,7 @@ def canon(t):
     if "'" in t:
         t = re.sub(r"for<[^>]*> ?", '', t)
         t = re.sub(r"&'[a-z_]\w* ", '&', t)
+        t = re.sub(r"::<'[a-z_]\w*>", '', t)
         t = re.sub(r"<'[a-z_]\w*>", '', t)
         t = re.sub(r"<'[a-z_]\w*, ", '<', t)
         t = re.sub(r", '[a-z_]\w*(?=[,>])", '', t)
